@@ -103,20 +103,39 @@ fn read_table(rt: &tokio::runtime::Runtime, db: &risinglight::Database, name: &s
     }
 }
 
+/// f64 / decimal cells travel as their Display text (`s:<hex>`): the model treats them as opaque
+/// text cells, the harness converts with the type's FromStr / Display.
+fn enc_cell(v: &DataValue) -> String {
+    match v {
+        DataValue::Float64(x) => format!("s:{}", hex(x.to_string().as_bytes())),
+        DataValue::Decimal(x) => format!("s:{}", hex(x.to_string().as_bytes())),
+        other => enc(other),
+    }
+}
+
+fn dec_cell(ty: &str, t: &str) -> DataValue {
+    use std::str::FromStr;
+    match (ty, t.strip_prefix("s:")) {
+        ("f64", Some(h)) => DataValue::Float64(String::from_utf8(unhex(h).unwrap()).unwrap().parse::<F64>().unwrap()),
+        ("dec", Some(h)) => DataValue::Decimal(v::Dec::from_str(&String::from_utf8(unhex(h).unwrap()).unwrap()).unwrap()),
+        _ => dec(t),
+    }
+}
+
 fn show_rows(rows: &[Vec<DataValue>]) -> String {
     if rows.is_empty() {
         return "-".into();
     }
-    let mut v: Vec<String> = rows.iter().map(|r| r.iter().map(enc).collect::<Vec<_>>().join(",")).collect();
+    let mut v: Vec<String> = rows.iter().map(|r| r.iter().map(enc_cell).collect::<Vec<_>>().join(",")).collect();
     v.sort();
     v.join(";")
 }
 
-fn parse_rows(s: &str) -> Vec<Vec<DataValue>> {
+fn parse_rows(types: &[String], s: &str) -> Vec<Vec<DataValue>> {
     if s == "-" {
         return vec![];
     }
-    s.split(';').map(|r| r.split(',').map(dec).collect()).collect()
+    s.split(';').map(|r| r.split(',').enumerate().map(|(k, c)| dec_cell(&types[k], c)).collect()).collect()
 }
 
 struct Req {
@@ -162,7 +181,7 @@ fn answer(line: &str, work: &str, k: usize) -> String {
     let _ = std::fs::remove_file(&path);
     match t[0] {
         "tbl" => {
-            let rows = parse_rows(t[6]);
+            let rows = parse_rows(&r.types, t[6]);
             let types: Vec<&str> = r.types.iter().map(|x| x.as_str()).collect();
             if let Err(e) = create(&rt, &db, "t", &types) {
                 return format!("create-failed:{}", hex(e.as_bytes()));
@@ -217,7 +236,12 @@ fn gen_cell(r: &mut Rng, ty: &str, d: u8, q: u8, e: Option<u8>, hazard: u64) -> 
     }
     match ty {
         "str" => {
+            // both kinds of quote characters whatever the QUOTE option is, alone and next to a
+            // byte that forces quoting (delimiter, quote, newline)
+            let other = if q == b'"' { '\'' } else { '"' };
             let specials: Vec<String> = vec![
+                "\"".into(), "'".into(), other.to_string(), format!("{}{}", other, d as char), format!("{}{}", q as char, other),
+                format!("{}\n", other), format!("a{}b{}", other, d as char), format!("{}{}", other, other),
                 (d as char).to_string(), (q as char).to_string(), "\n".into(), "\r".into(), "\r\n".into(),
                 e.map(|c| (c as char).to_string()).unwrap_or("\\".into()), "NULL".into(), " ".into(), "a".into(),
                 "b".into(), "é".into(), "\u{10000}".into(), "null".into(), "0".into(), "#".into(), "\t".into(),
@@ -269,15 +293,34 @@ fn gen_requests(tier: &str, out: &str) {
     let quotes = [b'"', b'"', b'"', b'"', b'`', b'$', b'\'', b'%', b'@', b'.', b'1'];
     let mut s = String::new();
     for _ in 0..n_tbl {
-        let d = *r.pick(&delims);
-        let mut q = *r.pick(&quotes);
+        // every option alone and in pairs (and a few triples), the others left at their defaults
+        const COMBOS: &[(bool, bool, bool, bool)] = &[
+            (false, false, false, false), (false, false, false, false), (true, false, false, false),
+            (false, true, false, false), (false, true, false, false), (false, true, false, false),
+            (false, false, true, false), (false, false, false, true), (true, true, false, false),
+            (true, true, false, false), (true, false, true, false), (false, true, true, false),
+            (false, true, true, false), (true, false, false, true), (false, true, false, true),
+            (false, false, true, true), (true, true, true, false), (true, true, true, true),
+        ];
+        let (dn, qn, es, h) = COMBOS[(r.below(COMBOS.len() as u64)) as usize];
+        let d = if dn { *r.pick(&delims[4..]) } else { b',' };
+        let mut q = if qn { *r.pick(&quotes[4..]) } else { b'"' };
         while q == d {
             q = *r.pick(&quotes);
         }
-        let e = if r.chance(1, 7) { Some(*r.pick(&[b'!', b'\\', b'x', b'^', q, d, b'N'])) } else { None };
-        let h = r.chance(1, 8);
+        let e = if es { Some(*r.pick(&[b'!', b'\\', b'x', b'^', q, d, b'N', b'"', b'\''])) } else { None };
+        // number texts are opaque to the model: keep option bytes out of their alphabet
+        let numeric = |b: u8| b.is_ascii_alphanumeric() || b == b'.' || b == b'-' || b == b'+';
+        let plain_opts = !(numeric(d) || numeric(q) || e.map(numeric).unwrap_or(false));
         let ncols = 1 + r.below(4) as usize;
-        let types: Vec<&str> = (0..ncols).map(|_| *r.pick(TYPES)).collect();
+        let types: Vec<&str> = (0..ncols)
+            .map(|_| loop {
+                let t = if r.chance(1, 3) { "str" } else { *r.pick(TYPES) };
+                if plain_opts || !(t == "f64" || t == "dec") {
+                    break t;
+                }
+            })
+            .collect();
         let nrows = r.below(7) as usize;
         let hazard = match r.below(10) {
             0 => 1,
@@ -286,7 +329,20 @@ fn gen_requests(tier: &str, out: &str) {
             _ => 0,
         };
         let rows: Vec<String> = (0..nrows)
-            .map(|_| types.iter().map(|t| enc(&gen_cell(&mut r, t, d, q, e, hazard))).collect::<Vec<_>>().join(","))
+            .map(|_| {
+                types
+                    .iter()
+                    .map(|t| {
+                        let v = gen_cell(&mut r, t, d, q, e, hazard);
+                        // opaque text cells: use the fixpoint display(parse(display v))
+                        match &v {
+                            DataValue::Float64(_) | DataValue::Decimal(_) => enc_cell(&dec_cell(t, &enc_cell(&v))),
+                            _ => enc_cell(&v),
+                        }
+                    })
+                    .collect::<Vec<_>>()
+                    .join(",")
+            })
             .collect();
         s += &format!(
             "tbl {} {} {} {} {} {}\n",
@@ -298,6 +354,7 @@ fn gen_requests(tier: &str, out: &str) {
     let pieces: Vec<&str> = vec![
         "a", "b", "1", "2", "-3", "true", "false", "", " ", "NULL", "x y", "\"", "\"\"", "\"a\"", "\"a,b\"", "\"a\"\"b\"",
         "\"a\nb\"", "\"a\"b", "a\"b", "2020-01-05", "1 day", "é",
+        "\"a\u{1}b\"", "\"\u{1},\"", "\u{1}", "\"x,\u{1}\u{1}y\"", "a\u{1}",
     ];
     for i in 0..n_imp {
         let d = if i % 3 == 0 { *r.pick(&delims) } else { b',' };
@@ -335,7 +392,8 @@ fn gen_requests(tier: &str, out: &str) {
                     0 => format!("\"{}\"", base),
                     _ => base,
                 };
-                let p = p.replace('"', &(q as char).to_string()).replace(',', &(d as char).to_string());
+                let other = if q == b'"' { "'" } else { "\"" };
+                let p = p.replace('"', &(q as char).to_string()).replace(',', &(d as char).to_string()).replace('\u{1}', other);
                 text.push_str(&p);
             }
             if r.chance(1, 10) {
